@@ -206,6 +206,23 @@ theorem mstep_K (s s' : St) (i : Mi) (h : mstep s i = .ok s') : KExt s.heap s'.h
     split at h
     · simp only [pure, Except.pure] at h; cases h; exact KExt_refl _
     · cases h
+  | inplace d =>
+    simp only [mstep] at h
+    split at h
+    · cases h
+    · split at h
+      · cases h
+      · simp only [pure, Except.pure] at h; cases h; exact KExt_refl _
+  | settext d w =>
+    simp only [mstep] at h
+    split at h
+    · cases h
+    · rename_i cell hd
+      split at h
+      · cases h
+      · simp only [pure, Except.pure] at h
+        cases h
+        exact KExt_set s.heap d cell _ hd rfl
 
 theorem runMi_K : ∀ (prog : List Mi) (s s' : St), runMi s prog = .ok s' → KExt s.heap s'.heap := by
   intro prog
